@@ -340,7 +340,9 @@ def extra_units():
     on phred 0..51, saturating above) - C04's exhaustive codec unit, re-verified under this property"""
     from contracts import c04
     from pyvc.units import share
-    return [share(c04.phred, PROP)]
+    # ... and the records the strategies are handed are the four lines of the files, empty lines included (C01's reader unit)
+    from contracts import c01
+    return [share(c04.phred, PROP), share(c01.fastq_next, PROP)]
 
 
 # ------------------------------------------------------------------------------ composite strategies (DamID + transcriptome): two
